@@ -39,8 +39,8 @@ from tangermeme.utils import random_one_hot
 nn = torch.nn
 
 SCOPE = {
-    'quick': 'seeded random sequential float64 nets, depth 1-4 weight layers (Conv1d k1-4/stride1-3/dilation1-3/padding0-2, Linear, AvgPool1d incl. padding/ceil/overlap, MaxPool1d with disjoint windows incl. padding/ceil, Flatten/Unflatten/Transpose, 16 element-wise activations of the table with non-default parameters), alphabet 2-5, length 6-14, 1-3 examples x 1-4 references (tensor: one-hot / zeros / uniform / real-valued; generated: dinucleotide_shuffle and shuffle with int seed, dinucleotide_shuffle unseeded), every target, batch_size 1..n*S+2: ~350 nets + every activation class once in a fixed 3-layer net + 3 non-sequential models x 3 seeds + ~60 nets with overlapping/dilated MaxPool1d',
-    'thorough': 'same generator, ~5000 nets, 600 overlapping/dilated MaxPool1d nets, non-sequential models x 20 seeds, every activation x 10 seeds',
+    'quick': 'seeded random sequential float64 nets, depth 1-4 weight layers (Conv1d k1-4/stride1-3/dilation1-3/padding0-2, Linear, AvgPool1d incl. padding/ceil/overlap, MaxPool1d with disjoint windows incl. padding/ceil, Flatten/Unflatten/Transpose, 16 element-wise activations of the table with non-default parameters), alphabet 2-5, length 6-14, 1-3 examples x 1-4 references (tensor: one-hot / zeros / uniform / real-valued; generated: dinucleotide_shuffle and shuffle with int seed, dinucleotide_shuffle unseeded), every target, batch_size 1..n*S+2: 1400 nets + every activation class (2 parameterisations x 2 weight scales) in a fixed 3-layer net + 4 non-sequential models (residual add, concatenated branches + MaxPool1d, activation/max-pool on the input, MaxPool2d) x 3 seeds + 100 nets with overlapping/dilated MaxPool1d and the two minimal hand-checkable ones',
+    'thorough': 'same generator, 15000 nets, 1500 overlapping/dilated MaxPool1d nets, non-sequential models x 20 seeds, every activation x 10 parameterisations x 2 weight scales',
 }
 
 # ---------------------------------------------------------------------------------------------
@@ -117,15 +117,15 @@ def gen_spec(rng, A, L, depth, n_targets, maxpool='disjoint', acts=None, p_max=0
     """random sequential architecture with `depth` weight layers (the last one is the Linear head).
     maxpool: None | 'disjoint' (stride >= kernel, dilation 1) | 'overlap' (at least one MaxPool1d with
     stride < kernel or dilation > 1)"""
-    acts = acts or ACT_NAMES
+    acts = acts or ACT_NAMES          # acts='none': affine model
     for _attempt in range(200):
         spec, cur, seq, has_overlap = [], torch.zeros(1, A, L, dtype=torch.float64), True, False
 
         def push(l):
             nonlocal cur
             y = make_layer(l).double()(cur)
-            if y.numel() == 0 or y.numel() > 400:
-                raise ValueError('size')
+            if y.numel() == 0 or y.numel() > 400 or not bool(torch.isfinite(y).all()):
+                raise ValueError('size')     # also rejects dilated max-pool windows lying entirely in the padding (-inf)
             spec.append(l)
             cur = y
 
@@ -148,7 +148,7 @@ def gen_spec(rng, A, L, depth, n_targets, maxpool='disjoint', acts=None, p_max=0
                 push(['avg', k, rng.randint(1, k + 1), rng.randint(0, k // 2), rng.randint(0, 1), rng.randint(0, 1)])
 
         def act(p):
-            if rng.random() < p:
+            if acts != 'none' and rng.random() < p:
                 push(['act', rng.choice(acts), rng.randint(0, 5)])
 
         try:
@@ -243,10 +243,34 @@ class Shared(nn.Module):
         return s.l(s.a(s.c2(s.a(s.c(X)))).flatten(1))
 
 
-DAGS = {'res': Res, 'branch': Branch, 'inputact': InputAct, 'shared': Shared}
+class Pool2d(nn.Module):
+    """MaxPool2d (disjoint windows) over the (channel, position) plane"""
+    def __init__(s, A, L):
+        super().__init__()
+        s.c, s.a, s.p, s.l = nn.Conv1d(A, 4, 3, padding=1), nn.Tanh(), nn.MaxPool2d(2), nn.Linear(2 * (L // 2), 2)
+
+    def forward(s, X):
+        return s.l(s.p(s.a(s.c(X)).unsqueeze(1)).flatten(1))
+
+
+DAGS = {'res': Res, 'branch': Branch, 'inputact': InputAct, 'shared': Shared, 'pool2d': Pool2d}
+
+# smallest overlapping-window input: alphabet {A, C}, x = ACA, reference all-zero, MaxPool1d(2, stride=1)
+# directly on the input, then the sum of everything.  f(x) = 4, f(ref) = 0; position 1 of row C is the
+# arg-max of both windows of that row.
+MINIMAL_OVERLAP = {'kind': 'net', 'section': 'maxpool-overlap', 'A': 2, 'L': 3, 'n': 1, 'S': 1, 'target': 0, 'wseed': 0, 'gain': 1.0,
+                   'xseed': 0, 'refs': 'zeros', 'rs': 0, 'batch_size': 1, 'weights': 'ones', 'Xlist': [[[1, 0, 1], [0, 1, 0]]],
+                   'spec': [['max', 2, 1, 0, 1, 0], ['flat'], ['lin', 4, 1, 0]]}
+# smallest dilated input: same data, MaxPool1d(2, stride=1, dilation=2): one window {0, 2} per row
+MINIMAL_DILATED = dict(MINIMAL_OVERLAP, spec=[['max', 2, 1, 0, 2, 0], ['flat'], ['lin', 2, 1, 0]])
 
 
 def model_of(case):
+    if case.get('weights') == 'ones':        # hand-checkable minimal cases: every weight 1, no bias term
+        m = nn.Sequential(*[make_layer(l) for l in case['spec']]).double().eval()
+        for p in m.parameters():
+            p.data.fill_(1.0)
+        return m
     if case.get('dag'):
         return init_weights(DAGS[case['dag']](case['A'], case['L']), case['wseed'], case['gain'])
     return build(case['spec'], case['wseed'], case['gain'])
@@ -256,6 +280,8 @@ def model_of(case):
 # inputs
 
 def make_X(case):
+    if case.get('Xlist') is not None:
+        return torch.tensor(case['Xlist'], dtype=torch.float64)
     return random_one_hot((case['n'], case['A'], case['L']), random_state=case['xseed']).double()
 
 
@@ -323,7 +349,8 @@ def check_net(case, info=None):
         mult, refs_r, w2 = _call(model, X, refs_arg, kw, case, True)
     except Exception as e:
         f = 'maxpool-dilation-raises' if kind == 'dilated' else ('maxpool-overlap-raises' if kind else 'raises')
-        return [(f, 'deep_lift_shap raised %s: %s' % (type(e).__name__, str(e)[:100]))]
+        return [(f, 'deep_lift_shap raised instead of returning attributions (%s model)%s: %s: %s'
+                 % (kind or 'in-scope', ' ' * 24, type(e).__name__, str(e)[:100]))]
     if tuple(attr.shape) != (n, A, L):
         return [(f_gen, 'processed shape %s != X shape' % (tuple(attr.shape),))]
     if tuple(mult.shape) != (n, S, A, L) or tuple(refs_p.shape) != (n, S, A, L):
@@ -351,16 +378,16 @@ def check_net(case, info=None):
     err_r = (lhs_r - rhs_r).abs() / scale_r
     if bool((err_r > rel).any()):
         e, j = divmod(int(err_r.argmax()), S)
-        out.append((f_gen, 'raw: sum((x-ref)*m) = %.12g but f(x)-f(ref) = %.12g (example %d, reference %d)' % (lhs_r[e, j], rhs_r[e, j], e, j)))
+        out.append((f_gen, 'raw clause: sum((x-ref)*multipliers) != f(x)[t]-f(ref)[t] for an example-reference pair: %.12g vs %.12g (example %d, reference %d)' % (lhs_r[e, j], rhs_r[e, j], e, j)))
     lhs_p = attr.sum(dim=(1, 2))
     rhs_p = fx - fr_p.mean(dim=1)
     scale_p = 1 + fx.abs() + fr_p.abs().mean(dim=1) + attr.abs().sum(dim=(1, 2))
     err_p = (lhs_p - rhs_p).abs() / scale_p
     if bool((err_p > rel).any()):
         e = int(err_p.argmax())
-        out.append((f_gen, 'processed: sum(attr) = %.12g but f(x) - mean f(ref) = %.12g (example %d)' % (lhs_p[e], rhs_p[e], e)))
+        out.append((f_gen, 'processed clause: sum(attributions) != f(x)[t] - mean_j f(ref_j)[t] for an example: %.12g vs %.12g (example %d)' % (lhs_p[e], rhs_p[e], e)))
     if (w1 or w2) and not band:
-        out.append((f_gen, 'RuntimeWarning emitted: %s' % (w1 + w2)[0]))
+        out.append((f_gen, 'warning clause: a RuntimeWarning was emitted for a model inside the property scope: %s' % (w1 + w2)[0]))
     if info is not None:
         # non-trivial: the rescale rule made a difference w.r.t. the plain gradient
         Xg = X.repeat_interleave(S, 0).clone().requires_grad_()
@@ -405,7 +432,7 @@ def run(rep):
     worst = 0.0
     # (1) every activation class in a fixed 3-weight-layer net
     for name in ACT_NAMES:
-        for q in range(10 if thorough else 1):
+        for q in range(10 if thorough else 2):
             for gain in (1.5, 4.0):
                 spec = [['conv', 4, 3, 3, 2, 2, 2, 1], ['act', name, q], ['avg', 2, 2, 0, 0, 1], ['flat'], ['lin', 9, 3, 1], ['act', name, q + 1], ['lin', 3, 2, 1]]
                 case = {'kind': 'net', 'section': 'each-activation', 'A': 4, 'L': 12, 'n': 2, 'S': 3, 'target': q % 2, 'wseed': 100 + q, 'gain': gain,
@@ -414,7 +441,7 @@ def run(rep):
                 if i:
                     worst = max(worst, i['max_rel_err'])
     # (2) non-sequential models
-    for name in ('res', 'branch', 'inputact'):
+    for name in ('res', 'branch', 'inputact', 'pool2d'):
         for sd in range(20 if thorough else 3):
             case = {'kind': 'net', 'section': 'dag', 'dag': name, 'A': 4, 'L': 10, 'n': 2, 'S': 3, 'target': sd % 2, 'wseed': sd, 'gain': 2.0,
                     'xseed': sd, 'refs': REF_KINDS[sd % len(REF_KINDS)], 'rs': sd, 'batch_size': 1 + sd % 7}
@@ -430,7 +457,9 @@ def run(rep):
             bad += 1
     rep.note('observation, not asserted: a model applying ONE ReLU module object at two places breaks completeness in %d of 3 seeded cases (module.input/output are overwritten by the later use)' % bad)
     # (3) overlapping / dilated MaxPool1d
-    n_ov = 600 if thorough else 60
+    _run_case(rep, MINIMAL_OVERLAP, ('ov', 'minimal'))
+    _run_case(rep, MINIMAL_DILATED, ('ov', 'minimal-dilated'))
+    n_ov = 1500 if thorough else 100
     for k in range(n_ov):
         if rep.left() < (200 if thorough else 25):
             rep.note('overlap section cut at %d' % k)
@@ -438,7 +467,7 @@ def run(rep):
         case = _new_case(rng, 'maxpool-overlap', lambda r, A, L, nt: gen_spec(r, A, L, r.randint(2, 3), nt, maxpool='overlap', p_max=0.7))
         _run_case(rep, case, ('ov', k), sample=k < 1)
     # (4) the main generator
-    n_main = 5000 if thorough else 350
+    n_main = 15000 if thorough else 1400
     for k in range(n_main):
         if rep.out_of_time():
             rep.note('main generator cut at %d of %d (time budget)' % (k, n_main))
